@@ -1949,6 +1949,16 @@ def check_auto_roots(ctx, mexe, cases, impls, stats):
     same arithmetic replayed in Python doubles, bit for bit, and (b) the extracted auto_root over exact rationals
     with slack = the double 1e-5, under a rounding bound"""
     ks = [k for k, c in enumerate(cases) if c["mode"] == "A" and impls[k] is not None]
+    # the big cases (tol_big): only the binary64 replay of the constructor's arithmetic - the exact sum of thousands of
+    # rationals with growing denominators in the extracted model costs minutes
+    for k in ks:
+        if len(cases[k]["pts"]) > 200:
+            P = [(fl(a), fl(b)) for a, b in cases[k]["pts"]]
+            stats["auto_roots"] += 1
+            if tuple(impls[k]["cells"][0][1:5]) != auto_root_float(P):
+                ctx.mismatch(cases[k], "QuadTree(Y,N) root box %r, the constructor's arithmetic gives %r"
+                             % (tuple(impls[k]["cells"][0][1:5]), auto_root_float(P)))
+    ks = [k for k in ks if len(cases[k]["pts"]) <= 200]
     if not ks:
         return
     inp = []
